@@ -45,6 +45,10 @@ class PurityHooks(Hooks):
         fn = ev['fn']
         tag = ev.get('t', {})
         allowed = {x.lstrip('@') for x in ev.get('inplace', [])}
+        if not out.ok and tag.get('expect') == 'refuse':
+            allowed = set()         # a refused call -- even on a documented in-place target -- leaves everything as it was
+            it.fault('refuse')
+            it.probe('refused_inplace_call')
         new = self._snapshot(it)
         it.probe('check:snapshot')
         it.probe('fn:' + fn)
@@ -236,7 +240,7 @@ class PurityScenario(Scenario):
 
     must_hit = ['cache_eviction', 'shared_dft_shape', 'seeded_after_rng_fault', 'frozen_run', 'coldwarm_audit',
                 'fn:Plane.multiply', 'fn:propagate_dft', 'fn:propagate_fft', 'fn:Plane.fit_tilt', 'fn:dft2', 'fn:adc',
-                'fn:shot_noise', 'fn:s*', 'fn:collect_charge', 'fn:Wavefront.insert', 'path_pair']
+                'fn:shot_noise', 'fn:s*', 'fn:collect_charge', 'fn:Wavefront.insert', 'path_pair', 'refused_inplace_call']
     probe_names = must_hit + ['frozen_write_attempt', 'frozen_benign_write']
 
     # ---------------------------------------------------------------- world + shared pool
@@ -291,6 +295,8 @@ class PurityScenario(Scenario):
         add('Pupil', 'P1', k={'amplitude': '@A', 'opd': '@O', 'mask': '@MS', 'pixelscale': ph['dx'], 'focal_length': ph['f']})
         add('Pupil', 'P2', k={'amplitude': '@A', 'opd': '@O', 'pixelscale': ph['dx'], 'focal_length': ph['f']})
         add('Tilt', 'TL', k={'x': 2e-6 / ph['f'], 'y': -3e-6 / ph['f']})
+        add('Pupil', 'PSC', k={'focal_length': ph['f'] * 1.5})
+        add('Plane', 'PDEF', k={})
         add('Image', 'IM', k={})
         add('Wavefront', 'W0', a=[ph['wl']])
         unit2 = rng.choice(['um', 'um', 'angstrom', 'm', 'nm'])
@@ -328,7 +334,7 @@ class PurityScenario(Scenario):
             return e
 
         def sd():
-            return rng.randrange(10 ** 6)
+            return rng.choice([0, 0, 1, rng.randrange(10 ** 6), rng.randrange(10 ** 6), rng.randrange(10 ** 6)])
 
         def optics():
             out = []
@@ -355,6 +361,14 @@ class PurityScenario(Scenario):
                         'recipe': {'kind': 'uniform', 'shape': [n[0] * os_ + rng.randint(-1, 1), n[1] * os_ + rng.randint(-1, 1)],
                                    'lo': 0, 'hi': 1, 'seed': sd()}})
             out.append(E('Wavefront.insert', ['@' + wi, '@' + acc], {'weight': rng.choice([1, 0.5, 2.0])}, inplace=['@' + acc]))
+            if rng.random() < 0.4:
+                # attribute-less planes on wavefronts other callers share: products are new objects, operands untouched
+                out.append(E('Plane.multiply', ['@PSC', '@' + w1]))
+                out.append(E('Plane.multiply', ['@TL', '@W0']))
+                out.append(E('Plane.multiply', ['@PDEF', '@W0']))
+            if rng.random() < 0.3:
+                out.append(E('setattr', ['@' + wi, 'ptype', rng.choice(['tilt', 'transform', 'bogus'])], inplace=['@' + wi], t={'expect': 'refuse'}))
+                out.append(E('propagate_dft', ['@' + wi], {'pixelscale': ph['dx'], 'shape': [4, 5], 'oversample': 1}))
             if rng.random() < 0.3:
                 back = nid('w')
                 out.append(E('propagate_dft', ['@' + wi], {'pixelscale': ph['dx'], 'shape': [rng.randint(3, 8)] * 2, 'oversample': 1}, id=back))
@@ -379,6 +393,16 @@ class PurityScenario(Scenario):
             else:
                 out.append(E('propagate_fft', ['@' + w1], k))
             out.append(E('attr', ['@' + out[-1]['id'], 'field']))
+            if rng.random() < 0.5:
+                # one caller-owned scratch buffer across two grid sizes, then the first call again (F6 with a stale buffer)
+                sc2 = nid('sc')
+                g_big = ph['n0'] * 3
+                out.append({'c': c, 'fn': 'array', 'id': sc2, 'recipe': {'kind': 'complex', 'shape': [g_big + 2, g_big + 1], 'seed': sd()}})
+                first = nid('r')
+                out.append(E('propagate_fft', ['@' + w1], {'pixelscale': ph['du'], 'oversample': 1, 'scratch': '@' + sc2}, id=first, inplace=['@' + sc2]))
+                out.append(E('propagate_fft', ['@' + w1], {'pixelscale': ph['du'], 'oversample': rng.choice([2, 3]), 'scratch': '@' + sc2}, inplace=['@' + sc2]))
+                out.append(E('propagate_fft', ['@' + w1], {'pixelscale': ph['du'], 'oversample': 1, 'scratch': '@' + sc2}, inplace=['@' + sc2],
+                             t={'dup_of': first}))
             return out
 
         def fit():
@@ -600,7 +624,10 @@ class PurityScenario(Scenario):
             if self._dup_ok(ev):
                 done[c].append(ev)
             if done[c] and rng.random() < 0.08:
-                d = copy.deepcopy(rng.choice(done[c]))
+                src = rng.choice(done[c])
+                if rng.random() < 0.4:
+                    out.append({'env': 'perturb', 'target': '@' + src['id'], 'seed': rng.randrange(10 ** 6), 'unshared': True})
+                d = copy.deepcopy(src)
                 d.setdefault('t', {})['dup_of'] = d['id']
                 d['id'] = d['id'] + 'd%d' % len(out)
                 out.append(d)
